@@ -35,7 +35,10 @@ META = {
         "differential only samples the presumption that pydantic's emitted schema describes its own validation",
         "mutation operators are restricted to classes on which JSON-Schema and pydantic semantics coincide "
         "(required-key deletion on keys without model defaults, unknown keys, unknown discriminator tags, "
-        "wrong container kinds)",
+        "wrong container kinds); values of another JSON type at any position: class-changing replacements (scalar <-> "
+        "list / object / null) under both configurations, scalar-for-scalar swaps (no floats, no bool-for-number) only "
+        "under the strict one -- the lax decoder's coercions between scalars (\"7\" for 7, 1 for true) are outside "
+        "the comparison",
     ],
     "nshards": {"quick": 8, "thorough": 16},
 }
@@ -171,13 +174,64 @@ def any_slots():
 FREE = [{}, 7, "x", None, [1, {"a": None}], {"nodes": 3}, {"nodes": [], "edges": []}, {"version": "live"}, True]
 
 
-def mutate(r, kind, doc, force=None):
+def mutate(r, kind, doc, force=None, prefer=None, at=None):
     """returns (mutated doc, expected verdict in strict, expected verdict in lax) or None"""
     d = copy.deepcopy(doc)
     hugrs = [d] if kind == "hugr" else (d["modules"] if kind == "package" else [])
     op = r.choice(["none", "delete", "unknown-key", "bad-tag", "wrong-container", "unknown-key-nested", "enum-value",
                    "free-form", "free-form"])
     op = force or op
+    if op == "retype":
+        # "same types": a value anywhere in the document is replaced by a value of another JSON type.  Positions are
+        # drawn per distinct generic path (so that rare positions -- a metadata entry, a version string -- get the same
+        # weight as the hundreds of type rows).  Class-changing replacements (scalar <-> list / object / null) are
+        # judged under both configurations; scalar-for-scalar swaps only under the strict one, because the lax decoder
+        # coerces between scalars by design ("7" for 7, 1 for true) -- stated as an assumption.
+        from vf.oracles.observe import generic_path
+
+        spots = {}
+
+        def walk3(x, path):
+            items = x.items() if isinstance(x, dict) else enumerate(x) if isinstance(x, list) else ()
+            for k2, v2 in items:
+                p2 = f"{path}.{k2}" if isinstance(x, dict) else f"{path}[{k2}]"
+                spots.setdefault(generic_path(p2), []).append((x, k2))
+                walk3(v2, p2)
+
+        walk3(d, "")
+        if not spots:
+            return None
+        if at is not None:
+            # replay: the recorded position and replacement
+            gp, idx, new = at
+            tgt, k2 = spots[gp][idx]
+            tgt[k2] = new
+            return at[3], d, None, None
+        if prefer is not None:
+            # coverage-guided: the position class mutated least often so far (per kind of document) comes first
+            gp = min(sorted(spots), key=lambda g: (prefer.get((kind, g), 0), r.random()))
+            prefer[(kind, gp)] = prefer.get((kind, gp), 0) + 1
+        else:
+            gp = r.choice(sorted(spots))
+        idx = r.randrange(len(spots[gp]))
+        tgt, k2 = spots[gp][idx]
+        old = tgt[k2]
+        scalar = old is None or isinstance(old, (bool, int, float, str))
+        # replacements of this position class are taken in turn (k-th visit -> k-th option), so that every class sees
+        # every kind of replacement.  Scalar for scalar: no floats (1.0 is an integer for JSON Schema), no bool for a
+        # number and no number for a bool -- kept to what both formalisms treat as different types.
+        if scalar:
+            swap = ["x"] if isinstance(old, (bool, int, float)) else [7] if isinstance(old, str) else [7, "x"]
+            options = [("retype-swap", v) for v in swap] + [("retype-class", v) for v in
+                                                             ([[1], {"zz": 1}, [], {}] + ([] if old is None else [None]))]
+        elif isinstance(old, list):
+            options = [("retype-class", v) for v in (7, "x", {"zz": 1}, None, True)]
+        else:
+            options = [("retype-class", v) for v in (7, "x", [1], None, True)]
+        turn = (prefer.get((kind, gp), 1) - 1 + prefer.get("offset", 0)) if prefer is not None else r.randrange(len(options))
+        mop2, new = options[turn % len(options)]
+        tgt[k2] = new
+        return mop2, d, None, None, [gp, idx, new, mop2]
     if op == "free-form":
         # a position both formalisms leave unconstrained (function-value bodies, custom-constant payloads, `misc`
         # entries, fixed lowerings) is given arbitrary JSON: nothing may look inside it while decoding structurally
@@ -392,6 +446,8 @@ def acceptance(ctx, mode, cases):
             SerialHugr._pydantic_rebuild(cfg, force=True)
             phase2 = True
         kind, mop, doc, exp = case["kind"], case["mutation"], case["doc"], case["expect"][0 if strict else 1]
+        if mop == "retype-swap" and not strict:
+            continue    # (scalar coercions of the lax decoder: outside the comparison, see the assumptions)
         ctx.count(f"monitor:acceptance-agreement-{mode}")
         ctx.count("expect:" + ("either" if exp is None else "accept" if exp else "reject"))
         if strict:
@@ -403,6 +459,8 @@ def acceptance(ctx, mode, cases):
         except ValidationError:
             pd = False
         rec = {"kind": kind, "mutation": mop, "mode": mode, "rng": case["rng"]}
+        if case.get("at"):
+            rec["at"] = case["at"]
         if js != pd:
             key = None
             # the open finding is about validators of NESTED models surviving a strict rebuild: an unknown key inside a
@@ -519,6 +577,20 @@ def gen_cases(ctx, n):
         mop, d, es, el = m
         cases.append({"kind": kind, "mutation": mop, "doc": d, "expect": [es, el], "rng": ["ff", i]})
         ctx.case("acceptance", {"kind": kind, "mutation": mop, "rng": ["ff", i]}, True)
+    # a share for values of another JSON type at any position: several mutants per document, position classes chosen
+    # least-mutated-first so that every class of position the corpus has is reached
+    prefer: dict = {"offset": ctx.shard}   # (shards start the cycle of replacements at different options)
+    for i in ctx.mine(ctx.n(320, 8000)):
+        r = ctx.rng("rt", i)
+        kind, doc = corpus_doc(r)
+        for j in range(4):
+            m = mutate(r, kind, doc, force="retype", prefer=prefer)
+            if m is None:
+                continue
+            mop, d, es, el, at = m
+            cases.append({"kind": kind, "mutation": mop, "doc": d, "expect": [es, el], "rng": ["rt", i], "at": at})
+            ctx.case("acceptance", {"kind": kind, "mutation": mop, "rng": ["rt", i], "at": at}, True)
+    ctx.extra["retype_position_classes"] = len(prefer) - 1
     return cases
 
 
@@ -541,6 +613,11 @@ def replay(ctx, rec):
                        [{"kind": kind, "mutation": mop, "doc": d, "expect": [es, el], "rng": case["rng"]}])
             return
         kind, doc = corpus_doc(r)
+        if case["rng"][0] == "rt":
+            mop, d, es, el = mutate(r, kind, doc, force="retype", at=case["at"])
+            acceptance(ctx, case.get("mode", "strict"),
+                       [{"kind": kind, "mutation": mop, "doc": d, "expect": [es, el], "rng": case["rng"]}])
+            return
         if str(case.get("mutation", "")).startswith("delete-top-"):
             key = case["mutation"][len("delete-top-"):]
             mop, d, es, el = case["mutation"], {k: v for k, v in doc.items() if k != key}, False, False
